@@ -86,9 +86,15 @@ func verifAssert(c bool, label string) {
 // KNOWN-FINDING and only failures outside it are violations.
 func verifAssertKnown(c bool, label, knownID string, region bool) {
 	if !c {
+		if region && verifKnownIDs[knownID] {
+			return // a listed known finding, inside its region
+		}
 		verifFails = append(verifFails, label)
 	}
 }
+
+// verifKnownIDs: ids of the open findings in /verif/known_findings.json (set by the runner).
+var verifKnownIDs = map[string]bool{}
 
 func verifReach(label string) { verifReachedL = append(verifReachedL, label) }
 
